@@ -22,6 +22,11 @@ impl FrameBuffer {
     {
         self.0.read_from(stream, handler)
     }
+
+    // How many bytes of a frame that is not complete yet have been read.
+    pub fn pending(&self) -> usize {
+        self.0.buf.chunk().len()
+    }
 }
 
 // Dep. injection helper primarily for unit testing.
